@@ -176,7 +176,8 @@ def build(seed, scratch, n_random=0, fixtures=True, max_bytes=600000):
                             + (f":{spec.get('detection')}" if spec.get('detection') else ''),
                     'data': data, 'meta': m, 'spec': {k: v for k, v in spec.items() if k != 'src'}})
     if fixtures:
-        for p in sorted(glob.glob(os.path.join(env.REPO, 'test_data', '*.sgz'))):
+        for p in sorted(glob.glob(os.path.join(env.REPO, 'test_data', '*.sgz')) +
+                        glob.glob(os.path.join(env.REPO, 'test_data', 'padding', '*.sgz'))):
             with open(p, 'rb') as f:
                 data = f.read()
             try:
@@ -187,7 +188,8 @@ def build(seed, scratch, n_random=0, fixtures=True, max_bytes=600000):
                 dropped.append(f'fixture {os.path.basename(p)}: does not open ({type(e).__name__})')
                 continue
             if usable(m):
-                lib.append({'name': 'fixture:' + os.path.basename(p), 'data': data, 'meta': m, 'spec': None})
+                lib.append({'name': 'fixture:' + os.path.relpath(p, os.path.join(env.REPO, 'test_data')), 'data': data,
+                            'meta': m, 'spec': None})
     lib.dropped = dropped
     if dropped:
         raise core.HarnessError('file library incomplete, the reader-side check cannot vouch for anything: '
